@@ -89,6 +89,35 @@ where
       | some c =>
         if cand.valid && c.lite && c.rest = prev.rest && c.routes ≠ prev.routes then "viol:route-change-rejected" else "ok"
 
+def ApiCode.token : ApiCode → String
+  | .ok => "ok" | .invalidArgument => "invalid_argument" | .failedPrecondition => "failed_precondition"
+  | .internal => "internal"
+
+/-- the spec on one API request (relative to the implementation's previous state; the file is removed
+    before every request, so `file` is what THIS request wrote) -/
+def judgeApi (prev : Obs) (ifm : Option String) (cand : Option (Config × Bool)) (persist : Bool)
+    (code version file : String) (now : Obs) : String :=
+  if now.ver ≠ s!"c{now.rest}.{now.routes}" then "viol:version-not-content"
+  else if code = "ok" then
+    if ifm ≠ some prev.ver then "viol:api-cas"
+    else match cand with
+      | none => "viol:api-ok-without-candidate"
+      | some (c, valid) =>
+        let same := c.rest = prev.rest && c.routes = prev.routes
+        if !(valid && (same || (c.lite && c.rest = prev.rest))) then "viol:api-applied-not-route-only"
+        else if !(now.rest = c.rest && now.routes = c.routes && now.proxy = c.routes) then "viol:published-not-candidate"
+        else if now.gen ≠ (if same then prev.gen else prev.gen + 1) then "viol:routing-not-updated"
+        else if version ≠ now.ver then "viol:result-version"
+        else if file ≠ (if persist then "cand" else "-") then "viol:api-persist"
+        else "ok"
+  else if now ≠ prev then "viol:rejected-changed-state"
+  else if file ≠ "-" then "viol:api-rejected-persisted"
+  else match cand with
+    | some (c, valid) =>
+      if ifm = some prev.ver && valid && c.rest = prev.rest && (c.lite || c.routes = prev.routes)
+      then "viol:api-valid-rejected" else "ok"
+    | none => "ok"
+
 structure DS where
   model : State
   prev : Option Obs
@@ -172,6 +201,34 @@ def stepD (ds : DS) (c : Case) : DS × String × String :=
     | none => (ds, "bad-op", "-")
   | "applynil", [] => seqOp ds ⟨none, false, none⟩ c.impl
   | "applynil", [e] => seqOp ds ⟨none, false, some e⟩ c.impl
+  | "api", [ifm, cand, persist] =>
+    let ifMatch : Option String := if ifm = "-" then none else some ifm
+    let pc : Option (Option (Config × Bool)) :=
+      if cand = "u" then some none else
+      match cand.splitOn "," with
+      | [a, b, t, v] => match a.toNat?, t.toNat? with
+        | some rest, some routes => some (some (⟨rest, b = "1", routes⟩, v = "1"))
+        | _, _ => none
+      | _ => none
+    match pc with
+    | none => (ds, "bad-op", "-")
+    | some cv =>
+      let req : ApiReq V := ⟨ifMatch, cv.map (·.1), persist = "1"⟩
+      let validBit := match cv with | some (_, v) => v | none => false
+      let (a', resp) := apiApply (validFn validBit) verOf ⟨ds.model, none⟩ req
+      let fileTok := match a'.file with | some _ => "cand" | none => "-"
+      let out := resp.code.token ++ " " ++ resp.version.getD "-" ++ " file=" ++ fileTok ++ " | " ++ showState a'.gate
+      let parsed : Option (String × String × String × Obs) :=
+        match c.impl.splitOn " | " with
+        | [res, st] => match res.splitOn " " with
+          | [code, ver, f] => do pure (code, ver, (f.drop 5).toString, ← parseObs st)
+          | _ => none
+        | _ => none
+      let (verdict, prev') := match ds.prev, parsed with
+        | some p, some (code, ver, f, now) => (judgeApi p ifMatch cv (persist = "1") code ver f now, some now)
+        | _, some (_, _, _, now) => ("-", some now)
+        | _, none => ("viol:unparsable-output", ds.prev)
+      ({ model := a'.gate, prev := prev' }, out, verdict)
   | "conc", [r, l, t, ops] =>
     match r.toNat?, t.toNat?, (ops.splitOn ";").mapM parseConcCand with
     | some rest, some routes, some cands =>
